@@ -702,6 +702,13 @@ pub fn file(src: &str) -> Result<Value, String> {
                                 .unwrap_or_default();
                             if hits.len() == 1 {
                                 m["body"]["f"] = json!(hits[0]);
+                            } else if hits.len() > 1 {
+                                // several base fields of that type: a call without receiver reaches the same function through any of
+                                // them; attribute it to the field the forwarder is named after (`<field>_<fn>`), else to the first
+                                let name = m["name"].as_str().unwrap_or("").to_string();
+                                let callee = m["body"]["fn"].as_str().unwrap_or("").to_string();
+                                let pick = hits.iter().find(|h| name == format!("{h}_{callee}")).unwrap_or(&hits[0]).clone();
+                                m["body"]["f"] = json!(pick);
                             } else {
                                 m["body"] = json!({"k": "unknown", "text": "static forwarder through a type that is not the type of exactly one field"});
                             }
